@@ -1,6 +1,561 @@
 package main
 
-// detAnalysis: determinism typestate obligations (filled in below).
-func (e *Engine) detAnalysis(funcs []string) []*Obligation {
-	return nil
+import (
+	"fmt"
+	"go/token"
+	"go/types"
+	"sort"
+	"strings"
+
+	"golang.org/x/tools/go/ssa"
+)
+
+// ---- determinism typestate (obligation class "det")
+//
+// Go randomises map iteration order, so a `range` over a map may influence ordered output only through values that
+// are order-free. For every map-range loop of the functions under analysis one obligation is generated; it is
+// discharged when every effect of the loop body is one of
+//   (i)   collect-then-sort: elements are appended to a slice that is loop-carried, and every use of that slice
+//         after the loop is dominated by a sort.* call on it;
+//   (ii)  order-free sinks: map inserts / deletes, set-like membership, writes to per-iteration fresh objects;
+//   (iii) no emission: the body (and what it calls) does not write to a writer / builder, does not append to a slice
+//         that outlives the loop unsorted, and does not concatenate onto a loop-carried string.
+// Anything else fails the obligation (with the offending instruction as the reason).
+
+var sinkMethodNames = map[string]bool{"Write": true, "WriteString": true, "WriteByte": true, "WriteRune": true,
+	"Fprintf": true, "Fprint": true, "Fprintln": true, "Printf": true, "Println": true, "Print": true}
+
+var sortFuncs = map[string]bool{"sort.Strings": true, "sort.Ints": true, "sort.Float64s": true, "sort.Slice": true,
+	"sort.SliceStable": true, "sort.Sort": true, "sort.Stable": true, "slices.Sort": true, "slices.SortFunc": true}
+
+func isSinkCall(c *ssa.CallCommon) (bool, string) {
+	if c.IsInvoke() {
+		if sinkMethodNames[c.Method.Name()] {
+			return true, c.Method.FullName()
+		}
+		return false, ""
+	}
+	callee := c.StaticCallee()
+	if callee == nil {
+		return false, ""
+	}
+	full := callee.String()
+	switch {
+	case strings.HasPrefix(full, "fmt.Fprint"), strings.HasPrefix(full, "fmt.Print"), strings.HasPrefix(full, "io.WriteString"):
+		return true, full
+	case strings.HasPrefix(full, "(*strings.Builder).Write"), strings.HasPrefix(full, "(*bytes.Buffer).Write"),
+		strings.HasPrefix(full, "(*bufio.Writer).Write"), strings.HasPrefix(full, "(*os.File).Write"):
+		return true, full
+	}
+	return false, ""
+}
+
+// emitters: functions that (transitively, through static calls and name-resolved interface calls) write ordered output
+// or append to a slice reachable from their parameters.
+func (e *Engine) computeEmitters() map[*ssa.Function]string {
+	if e.emitters != nil {
+		return e.emitters
+	}
+	em := map[*ssa.Function]string{}
+	var fns []*ssa.Function
+	byName := map[string][]*ssa.Function{}
+	for p := range e.spkgs {
+		if !strings.HasPrefix(p, modulePath) {
+			continue
+		}
+		for _, fn := range e.allFunctions(p) {
+			fns = append(fns, fn)
+			byName[fn.Name()] = append(byName[fn.Name()], fn)
+		}
+	}
+	direct := func(fn *ssa.Function) string {
+		for _, b := range fn.Blocks {
+			for _, in := range b.Instrs {
+				switch x := in.(type) {
+				case ssa.CallInstruction:
+					if ok, what := isSinkCall(x.Common()); ok {
+						return "calls " + what
+					}
+				case *ssa.Store:
+					// x.f = append(x.f, ...): appending to a slice that lives in an object the caller can see
+					if call, ok := x.Val.(*ssa.Call); ok {
+						if b, ok := call.Call.Value.(*ssa.Builtin); ok && b.Name() == "append" && accumulates(call, x.Addr) {
+							switch x.Addr.(type) {
+							case *ssa.FieldAddr, *ssa.Parameter, *ssa.FreeVar, *ssa.IndexAddr:
+								if !addrRootIsLocalAlloc(x.Addr) {
+									return "appends to a slice stored in " + x.Addr.Name()
+								}
+							case *ssa.UnOp:
+								return "appends to a slice stored through a pointer"
+							}
+						}
+					}
+				}
+			}
+		}
+		return ""
+	}
+	for _, fn := range fns {
+		if r := direct(fn); r != "" {
+			em[fn] = r
+		}
+	}
+	for changed := true; changed; {
+		changed = false
+		for _, fn := range fns {
+			if _, ok := em[fn]; ok {
+				continue
+			}
+			for _, b := range fn.Blocks {
+				for _, in := range b.Instrs {
+					ci, ok := in.(ssa.CallInstruction)
+					if !ok {
+						continue
+					}
+					c := ci.Common()
+					var targets []*ssa.Function
+					if c.IsInvoke() {
+						if nt, ok := c.Value.Type().(*types.Named); ok && nt.Obj().Pkg() != nil && strings.HasPrefix(nt.Obj().Pkg().Path(), modulePath) {
+							targets = byName[c.Method.Name()]
+						}
+					} else if sc := c.StaticCallee(); sc != nil {
+						targets = []*ssa.Function{sc}
+					}
+					for _, t := range targets {
+						if r, ok := em[t]; ok {
+							em[fn] = "calls " + e.shortName(t) + " (" + r + ")"
+							changed = true
+						}
+					}
+					if _, ok := em[fn]; ok {
+						break
+					}
+				}
+				if _, ok := em[fn]; ok {
+					break
+				}
+			}
+		}
+	}
+	e.emitters = em
+	return em
+}
+
+func addrRootIsLocalAlloc(v ssa.Value) bool {
+	switch x := v.(type) {
+	case *ssa.Alloc:
+		return true
+	case *ssa.FieldAddr:
+		return addrRootIsLocalAlloc(x.X)
+	case *ssa.IndexAddr:
+		return addrRootIsLocalAlloc(x.X)
+	}
+	return false
+}
+
+// detAnalysis produces one obligation per map-range loop of the selected functions.
+func (e *Engine) detAnalysis(patterns []string) []*Obligation {
+	if len(patterns) == 0 {
+		return nil
+	}
+	em := e.computeEmitters()
+	var out []*Obligation
+	var paths []string
+	for p := range e.spkgs {
+		if strings.HasPrefix(p, modulePath) {
+			paths = append(paths, p)
+		}
+	}
+	sort.Strings(paths)
+	for _, p := range paths {
+		for _, fn := range e.allFunctions(p) {
+			sn := e.shortName(fn)
+			if !matchFunc(patterns, sn) {
+				continue
+			}
+			out = append(out, e.detFunction(fn, em)...)
+		}
+	}
+	return out
+}
+
+func (e *Engine) detFunction(fn *ssa.Function, em map[*ssa.Function]string) []*Obligation {
+	var out []*Obligation
+	li := e.loopsOf(fn)
+	type loopRec struct {
+		h    int
+		next *ssa.Next
+	}
+	var loops []loopRec
+	for h := range li.headers {
+		for _, in := range fn.Blocks[h].Instrs {
+			if nx, ok := in.(*ssa.Next); ok && !nx.IsString {
+				if rg, ok := nx.Iter.(*ssa.Range); ok && isMap(rg.X.Type()) {
+					loops = append(loops, loopRec{h, nx})
+				}
+			}
+		}
+	}
+	sort.Slice(loops, func(i, j int) bool { return li.ordinal[loops[i].h] < li.ordinal[loops[j].h] })
+	names := map[string]int{}
+	for _, l := range loops {
+		rg := l.next.Iter.(*ssa.Range)
+		label := e.snippetNode(rg.Pos(), fn, nil)
+		if label == "?" || label == "synthetic" {
+			label = rg.X.Name()
+		}
+		base := fmt.Sprintf("%s#det:maprange:%s", e.shortName(fn), label)
+		names[base]++
+		name := base
+		if names[base] > 1 {
+			name = fmt.Sprintf("%s~%d", base, names[base])
+		}
+		o := &Obligation{Name: name, Class: "det", Func: e.shortName(fn), Solver: "govc-typestate"}
+		if p := e.prog.Fset.Position(rg.Pos()); p.IsValid() {
+			o.Pos = fmt.Sprintf("%s:%d", strings.TrimPrefix(p.Filename, e.repo+"/"), p.Line)
+		}
+		reasons := e.detLoop(fn, li, l.h, em)
+		if len(reasons) == 0 {
+			o.Status = "proved"
+			o.Detail = "map-range body is order-free or collect-then-sort"
+		} else {
+			o.Status = "failed"
+			o.Detail = strings.Join(reasons, "; ")
+		}
+		out = append(out, o)
+	}
+	return out
+}
+
+// detLoop returns the reasons why the map-range loop with header h may make ordered output depend on iteration order.
+func (e *Engine) detLoop(fn *ssa.Function, li *loopInfo, h int, em map[*ssa.Function]string) []string {
+	var reasons []string
+	body := li.body[h]
+	inLoop := func(b *ssa.BasicBlock) bool { return body[b.Index] }
+	// loop-carried values
+	phis := map[ssa.Value]bool{}
+	for bi := range body {
+		// phis of the header and of nested headers
+		for _, in := range fn.Blocks[bi].Instrs {
+			if p, ok := in.(*ssa.Phi); ok && li.headers[bi] {
+				phis[p] = true
+			}
+		}
+	}
+	var collectors []ssa.Value // slices built in the loop that are live afterwards
+	for bi := range body {
+		for _, in := range fn.Blocks[bi].Instrs {
+			pos := in.Pos()
+			where := ""
+			if pos.IsValid() {
+				where = fmt.Sprintf(" (line %d)", e.prog.Fset.Position(pos).Line)
+			}
+			switch x := in.(type) {
+			case *ssa.BinOp:
+				if x.Op == token.ADD && sortOf(x.Type()) == SString && (phis[x.X] || phis[x.Y]) {
+					reasons = append(reasons, "string concatenation onto a loop-carried value"+where)
+				}
+			case ssa.CallInstruction:
+				c := x.Common()
+				if b, ok := c.Value.(*ssa.Builtin); ok {
+					if b.Name() == "append" {
+						if v, ok := in.(ssa.Value); ok {
+							// where does the appended slice go?
+							carried := false
+							if refs := v.Referrers(); refs != nil {
+								for _, r := range *refs {
+									switch y := r.(type) {
+									case *ssa.Phi:
+										if phis[y] || inLoop(y.Block()) {
+											carried = true
+										}
+									case *ssa.Store:
+										if y.Val == v && !addrRootIsLocalAlloc(y.Addr) {
+											if call, ok := in.(*ssa.Call); ok && !accumulates(call, y.Addr) {
+												continue // x.f = append(other, ...): an assignment, not an accumulation across iterations
+											}
+											if !e.sortedAfterLoop(fn, li, h, y.Addr) {
+												reasons = append(reasons, "appends in map order to a slice stored in "+e.snippetNode(y.Pos(), fn, nil)+where+" which is not sorted afterwards")
+											}
+										} else if y.Val == v {
+											carried = true
+											collectors = append(collectors, y.Addr)
+										}
+									}
+								}
+							}
+							if carried {
+								collectors = append(collectors, v)
+							}
+						}
+					}
+					continue
+				}
+				if ok, what := isSinkCall(c); ok {
+					reasons = append(reasons, "writes output in map order: "+what+where)
+					continue
+				}
+				var targets []*ssa.Function
+				if sc := c.StaticCallee(); sc != nil {
+					targets = append(targets, sc)
+				}
+				for _, t := range targets {
+					if r, ok := em[t]; ok {
+						reasons = append(reasons, "calls "+e.shortName(t)+" in map order, which "+r+where)
+					}
+				}
+			}
+		}
+	}
+	// collect-then-sort: every use after the loop of a slice built in the loop must be dominated by a sort
+	seen := map[ssa.Value]bool{}
+	for _, c := range collectors {
+		for _, r := range e.unsortedUses(fn, li, h, c, seen) {
+			reasons = append(reasons, r)
+		}
+	}
+	// de-duplicate
+	uniq := map[string]bool{}
+	var out []string
+	for _, r := range reasons {
+		if !uniq[r] {
+			uniq[r] = true
+			out = append(out, r)
+		}
+	}
+	return out
+}
+
+// sortedAfterLoop: is there, after the loop, a sort.* call on a load of an address with the same shape?
+func (e *Engine) sortedAfterLoop(fn *ssa.Function, li *loopInfo, h int, addr ssa.Value) bool {
+	fa, ok := addr.(*ssa.FieldAddr)
+	if !ok {
+		return false
+	}
+	for _, b := range fn.Blocks {
+		if li.body[h][b.Index] {
+			continue
+		}
+		for _, in := range b.Instrs {
+			call, ok := in.(*ssa.Call)
+			if !ok {
+				continue
+			}
+			sc := call.Call.StaticCallee()
+			if sc == nil || !sortFuncs[sc.String()] || len(call.Call.Args) == 0 {
+				continue
+			}
+			arg := call.Call.Args[0]
+			if mi, ok := arg.(*ssa.MakeInterface); ok {
+				arg = mi.X
+			}
+			if ld, ok := arg.(*ssa.UnOp); ok {
+				if fa2, ok := ld.X.(*ssa.FieldAddr); ok && fa2.Field == fa.Field && fa2.X == fa.X {
+					return true
+				}
+			}
+		}
+	}
+	return false
+}
+
+// unsortedUses lists uses, outside the loop, of a slice collected in the loop that are not dominated by a sort of it.
+func (e *Engine) unsortedUses(fn *ssa.Function, li *loopInfo, h int, root ssa.Value, seen map[ssa.Value]bool) []string {
+	// aliases: the phi chain of the collected slice
+	aliases := map[ssa.Value]bool{}
+	var work []ssa.Value
+	work = append(work, root)
+	// a slice accumulated in a field of a local struct variable travels with that variable
+	for a := root; ; {
+		fa, ok := a.(*ssa.FieldAddr)
+		if !ok {
+			if al, ok := a.(*ssa.Alloc); ok && al != root {
+				work = append(work, al)
+			}
+			break
+		}
+		a = fa.X
+	}
+	for len(work) > 0 {
+		v := work[len(work)-1]
+		work = work[:len(work)-1]
+		if aliases[v] {
+			continue
+		}
+		aliases[v] = true
+		if refs := v.Referrers(); refs != nil {
+			for _, r := range *refs {
+				switch y := r.(type) {
+				case *ssa.Phi:
+					work = append(work, y)
+				case *ssa.ChangeType:
+					work = append(work, y)
+				case *ssa.Call:
+					if b, ok := y.Call.Value.(*ssa.Builtin); ok && b.Name() == "append" && len(y.Call.Args) > 0 && y.Call.Args[0] == v {
+						work = append(work, y)
+					}
+				case *ssa.UnOp:
+					if _, isAlloc := v.(*ssa.Alloc); isAlloc {
+						work = append(work, y) // loads of the local slice variable
+					}
+				}
+			}
+		}
+		if p, ok := v.(*ssa.Phi); ok {
+			for _, ed := range p.Edges {
+				if _, isConst := ed.(*ssa.Const); !isConst {
+					work = append(work, ed)
+				}
+			}
+		}
+	}
+	var sorts []*ssa.Call
+	type use struct {
+		in   ssa.Instruction
+		what string
+	}
+	var uses []use
+	for v := range aliases {
+		if seen[v] {
+			continue
+		}
+		seen[v] = true
+		refs := v.Referrers()
+		if refs == nil {
+			continue
+		}
+		for _, r := range *refs {
+			if li.body[h][r.Block().Index] {
+				continue
+			}
+			switch y := r.(type) {
+			case *ssa.DebugRef, *ssa.Phi, *ssa.ChangeType:
+			case *ssa.Call:
+				if b, ok := y.Call.Value.(*ssa.Builtin); ok && (b.Name() == "len" || b.Name() == "cap" || b.Name() == "append") {
+					continue
+				}
+				if sc := y.Call.StaticCallee(); sc != nil && sortFuncs[sc.String()] {
+					sorts = append(sorts, y)
+					continue
+				}
+				uses = append(uses, use{y, "passed to " + e.snippetNode(y.Pos(), fn, nil)})
+			case *ssa.MakeInterface:
+				// sort.Slice(x, ...) / sort.Sort(sort.StringSlice(x)) take interfaces
+				isSort := false
+				if rr := y.Referrers(); rr != nil {
+					for _, r2 := range *rr {
+						if c2, ok := r2.(*ssa.Call); ok {
+							if sc := c2.Call.StaticCallee(); sc != nil && sortFuncs[sc.String()] {
+								sorts = append(sorts, c2)
+								isSort = true
+							}
+						}
+					}
+				}
+				if !isSort {
+					uses = append(uses, use{y, "converted to an interface value"})
+				}
+			case *ssa.Return:
+				uses = append(uses, use{y, "returned"})
+			case *ssa.Store:
+				if y.Val == v {
+					uses = append(uses, use{y, "stored in " + e.snippetNode(y.Pos(), fn, nil)})
+				}
+			case *ssa.Range:
+				uses = append(uses, use{y, "ranged over"})
+			case *ssa.IndexAddr, *ssa.Index, *ssa.Slice:
+				uses = append(uses, use{y.(ssa.Instruction), "indexed"})
+			case *ssa.UnOp:
+			case *ssa.MakeClosure:
+				// captured by a comparator closure handed to sort.Slice & co: part of the sort itself
+				onlySort := true
+				if rr := y.Referrers(); rr != nil {
+					for _, r2 := range *rr {
+						if _, isDbg := r2.(*ssa.DebugRef); isDbg {
+							continue
+						}
+						c2, ok := r2.(*ssa.Call)
+						if !ok {
+							onlySort = false
+							continue
+						}
+						if sc := c2.Call.StaticCallee(); sc == nil || !sortFuncs[sc.String()] {
+							onlySort = false
+						}
+					}
+				}
+				if !onlySort {
+					uses = append(uses, use{y, "captured by a closure"})
+				}
+			default:
+				uses = append(uses, use{r, fmt.Sprintf("used by %T", r)})
+			}
+		}
+	}
+	var out []string
+	for _, u := range uses {
+		ok := false
+		for _, s := range sorts {
+			if s.Block() == u.in.Block() {
+				// same block: the sort must come first
+				for _, in := range s.Block().Instrs {
+					if in == ssa.Instruction(s) {
+						ok = true
+						break
+					}
+					if in == u.in {
+						break
+					}
+				}
+			} else if s.Block().Dominates(u.in.Block()) {
+				ok = true
+			}
+		}
+		if !ok {
+			line := ""
+			if p := u.in.Pos(); p.IsValid() {
+				line = fmt.Sprintf(" (line %d)", e.prog.Fset.Position(p).Line)
+			}
+			out = append(out, "slice collected in map order is "+u.what+" without being sorted first"+line)
+		}
+	}
+	return out
+}
+
+
+// accumulates: is this `addr = append(<load of the same location>, ...)` — i.e. growing the slice stored at addr?
+func accumulates(call *ssa.Call, addr ssa.Value) bool {
+	if len(call.Call.Args) == 0 {
+		return false
+	}
+	ld, ok := call.Call.Args[0].(*ssa.UnOp)
+	if !ok || ld.Op != token.MUL {
+		return false
+	}
+	return sameAddr(ld.X, addr)
+}
+
+func sameAddr(a, b ssa.Value) bool {
+	if a == b {
+		return true
+	}
+	switch x := a.(type) {
+	case *ssa.FieldAddr:
+		if y, ok := b.(*ssa.FieldAddr); ok {
+			return x.Field == y.Field && sameAddr(x.X, y.X)
+		}
+	case *ssa.UnOp:
+		if y, ok := b.(*ssa.UnOp); ok && x.Op == token.MUL && y.Op == token.MUL {
+			return sameAddr(x.X, y.X)
+		}
+	case *ssa.Call:
+		// getters: x.GetA() twice on the same receiver
+		if y, ok := b.(*ssa.Call); ok {
+			sx, sy := x.Call.StaticCallee(), y.Call.StaticCallee()
+			if sx != nil && sx == sy && len(x.Call.Args) == 1 && len(y.Call.Args) == 1 {
+				return sameAddr(x.Call.Args[0], y.Call.Args[0])
+			}
+		}
+	}
+	return false
 }
